@@ -4,7 +4,7 @@
 From Coq Require Import List ZArith QArith Qcanon Bool Arith.
 From Dimod Require Import Base.Util Model.Poly Model.View Model.Hist Model.ChkC04
   Proofs.PolyFacts Proofs.ViewFacts Proofs.HistFacts Proofs.HistWf Proofs.HistWf2 Proofs.HistAtomic
-  Proofs.HistContract Proofs.HistAtomicQM Gen.Gen_QmLimits Proofs.HistGenTie.
+  Proofs.HistContract Proofs.HistAtomicQM Gen.Gen_QmLimits Gen.Gen_RelabelRules Proofs.HistGenTie Proofs.HistBackends.
 From Dimod Require Model.Adj Proofs.AdjFacts.
 Import ListNotations.
 Open Scope Qc_scope.
@@ -308,6 +308,69 @@ Theorem C04_backends_same_step :
     /\ forall i, In i (st_vars (fst (step s (h, py_op o)))) <-> In i (st_vars (fst (step s (h, o)))).
 Proof. exact backends_same_step. Qed.
 Print Assumptions C04_backends_same_step.
+
+(* ---------- array order vs dict order over whole histories ---------- *)
+(* `sim`: both are BQMs of the same vartype holding the same polynomial and the same set of variable
+   records (the orders may differ).  For every history of calls that do not consult the variable order
+   (`order_free`: primitive writes, the *_from loops, named removals, relabel_variables, offset, clear,
+   plain scale; through handles where the call does not read a neighbourhood sum), run with the array
+   rule on s and the dict rule on s': the outcomes agree call by call and the final states are related. *)
+Theorem C04_backends_indistinguishable :
+  forall l s s', forallb order_free l = true -> sim s s' ->
+    outcomes s l = outcomes s' (py_hist l) /\ sim (run s l) (run s' (py_hist l)).
+Proof. exact backends_indistinguishable. Qed.
+Print Assumptions C04_backends_indistinguishable.
+
+Theorem C04_backends_same_polynomial :
+  forall l s, is_bqm s = true -> forallb order_free l = true ->
+    st_poly (run s l) = st_poly (run s (py_hist l))
+    /\ (forall i, In i (st_vars (run s l)) <-> In i (st_vars (run s (py_hist l)))).
+Proof. exact backends_same_polynomial. Qed.
+Print Assumptions C04_backends_same_polynomial.
+
+(* how the order-consulting calls diverge: they act on the last / the i-th / the first k variables of the respective order *)
+Theorem C04_pop_is_remove_last :
+  forall h s, step s (h, ORemoveVariable None)
+    = match last_label s with Some v => step s (h, ORemoveVariable (Some v)) | None => raise BValue s end.
+Proof. exact pop_is_remove_last. Qed.
+Print Assumptions C04_pop_is_remove_last.
+
+Theorem C04_relabel_ints_is_positional :
+  forall h ints s, step s (h, ORelabelInts ints) = step s (h, ORelabel (combine (labels s) ints)).
+Proof. exact relabel_ints_is_positional. Qed.
+Print Assumptions C04_relabel_ints_is_positional.
+
+Theorem C04_resize_shrink_keeps_prefix :
+  forall h n fresh s, is_bqm s = true -> (0 <= n)%Z -> (Z.to_nat n <= num_variables s)%nat ->
+    st_vars (fst (step s (h, OResize n fresh))) = firstn (Z.to_nat n) (st_vars s).
+Proof. exact resize_shrink_keeps_prefix. Qed.
+Print Assumptions C04_resize_shrink_keeps_prefix.
+
+(* ---------- contraction through a handle whose vartype coincides with the base's ---------- *)
+Theorem C04_contract_energy_same_vartype_handle :
+  forall h u v s y, vdir_of h s = None ->
+    B s -> wf s -> has_var s u = true -> has_var s v = true -> u <> v ->
+    (match bvt s with BINARY => y u * y u = y u | _ => y u * y u = 1 end) ->
+    snd (step s (h, OContract u v)) = Ok /\
+    energy (st_poly (fst (step s (h, OContract u v)))) y = energy (st_poly s) (upd y v (y u)).
+Proof. exact contract_energy_same_vartype_handle. Qed.
+Print Assumptions C04_contract_energy_same_vartype_handle.
+
+(* ---------- error conditions generated from the source ---------- *)
+Theorem C04_relabel_rule_from_source : forall m s, relabel_ok m s = negb (gen_relabel_raises m s).
+Proof. exact relabel_rule_from_source. Qed.
+Print Assumptions C04_relabel_rule_from_source.
+
+Theorem C04_relabel_raises_iff :
+  forall m s h, snd (step s (h, ORelabel m)) = (if gen_relabel_raises m s then Raised BValue else Ok).
+Proof. exact relabel_raises_iff. Qed.
+Print Assumptions C04_relabel_raises_iff.
+
+Theorem C04_resize_raises_iff :
+  forall n fresh s h, is_bqm s = true ->
+    snd (step s (h, OResize n fresh)) = (if gen_resize_raises n then Raised BValue else Ok).
+Proof. exact resize_raises_iff. Qed.
+Print Assumptions C04_resize_raises_iff.
 
 (* ---------- non-vacuity ---------- *)
 Definition ex_s0 : state :=
